@@ -52,6 +52,27 @@ func checkC10(tier string) int {
 			params.Frankenstein = 1 // forced options (top 64 / min 500000) at block 1
 		}
 		cfg := drive.Cfg{Tag: "c10", Seed: hseed, Blocks: blocks, Params: params, Scripts: []string{"stakingb", "evidence", "transfers", "governance"}, Scout: true, Jumps: true, Absents: true, Evid: true, Honest: true}
+		if i%4 == 1 {
+			// the fork block forces new staking options (minimum 500 000, top count 64) at height 20, long
+			// after the node started; a candidate staked 1 000 000 before (not enough then, enough from 20 on)
+			params.Frankenstein = 20
+			cfg.Params = params
+			w1, _ := world.New(params)
+			var small *world.Validator
+			for _, v := range w1.Vals {
+				if !v.InGenesis {
+					small = v
+				}
+			}
+			cfg.ExtraPlan = func(c *gen.Ctx) []hist.TxSpec {
+				if c.H == 3 && small != nil {
+					sp := gen.Build(c, "STAKE", gen.StakeMsg(small, "1000000"), "a candidate stakes less than the current minimum, more than the one the fork block brings", &small.Stake, gen.ConsAccount(small))
+					return []hist.TxSpec{sp}
+				}
+				return nil
+			}
+			r.Count("histories_with_options_forced_by_the_fork_block_mid_run", 1)
+		}
 		darkHex := ""
 		if i%4 == 2 {
 			// a validator goes dark (its node is off: it signs no commit any more) and then takes all its
